@@ -2,6 +2,7 @@
 # usage: seedcheck.sh <ID> <worktree> [tier]  -- verify a seeded change and run the matching check against it
 ID=$1; WT=$2; TIER=${3:-quick}
 D=/verif/seeded/$ID; mkdir -p $D
+CID=$(echo $ID | cut -d_ -f1)
 cd $WT || exit 2
 git diff > $D/patch.diff
 cp demo_seed.py $D/demo_seed.py 2>/dev/null
@@ -12,4 +13,4 @@ echo "== demo without change"; PYTHONPATH=$WT /venv/bin/python demo_seed.py > /t
 git stash pop -q
 echo "== check $ID ($TIER) against the changed tree"
 cd /verif && VERIF_REPO=$WT /verif/.venv/bin/python -m vf.checks.$(echo $ID | tr 'A-Z' 'a-z' | cut -d_ -f1) --tier $TIER > /tmp/seedrun_$ID.out 2>&1; echo "check exit $?"
-grep -c "^VIOLATION" /tmp/seedrun_$ID.out; grep "^  key" /tmp/seedrun_$ID.out | head -3 | cut -c1-220; tail -1 /tmp/seedrun_$ID.out
+grep -c "^VIOLATION property=$CID" /tmp/seedrun_$ID.out; grep "^  key" /tmp/seedrun_$ID.out | head -3 | cut -c1-220; tail -1 /tmp/seedrun_$ID.out
